@@ -556,3 +556,26 @@ Fixpoint first_diff (i : N) (m impl : list (list N)) : option (N * list N * list
 Definition check_case (cfg : config) (d : wdecl) (qs : list (list qparam)) (ops : list op) (impl : list (list N))
   : option (N * list N * list N) :=
   first_diff 0%N (run cfg d qs ops) impl.
+
+(* ---------------------------------------------------------------- well-formed histories
+   The hypotheses of the run-level theorems (proofs/WorldInv.v), as booleans so that the check can
+   report how many of the histories it ran satisfy them. *)
+Definition wf_hrefb (r : href) : bool :=
+  match r with RRaw key ver => (key <? 2^32)%N && (ver <? 2^32)%N | _ => true end.
+Definition wf_tyb (d : wdecl) (t : ty) : bool :=
+  match t with TMut a => a <? length (wd_archs d) | _ => true end.
+Definition wf_opb (d : wdecl) (o : op) : bool :=
+  match o with
+  | ONew caps => length caps =? length (wd_archs d)
+  | ODestroy _ _ _ r | OProbe _ _ _ r | OToDirect _ _ _ r => wf_hrefb r
+  | OWrite _ _ _ _ r _ _ => wf_hrefb r
+  | OFind _ _ _ t r _ => wf_hrefb r && wf_tyb d t
+  | OPreset _ sv av => (sv <? 2^32)%N && (av <? 2^32)%N
+  | _ => true
+  end.
+Definition wf_declb (d : wdecl) : bool := forallb (fun a => (da_id a <? 2^8)%N) (wd_archs d).
+Definition wf_case (d : wdecl) (ops : list op) : bool := wf_declb d && forallb (wf_opb d) ops.
+
+Definition check_case_w (cfg : config) (d : wdecl) (qs : list (list qparam)) (ops : list op) (impl : list (list N))
+  : bool * option (N * list N * list N) :=
+  (wf_case d ops, check_case cfg d qs ops impl).
